@@ -26,6 +26,12 @@ RUNNER = r'''trap 'echo >>$COUNTFILE; __c=$(wc -l <$COUNTFILE);
 set -T
 source $1
 '''
+# the same counter, but the script is parked (not killed) before its K-th simple command until a file appears
+HOLDER = r'''trap 'echo >>$COUNTFILE; __c=$(wc -l <$COUNTFILE);
+      if [ $__c -eq $HOLDAT ]; then touch $HOLDFLAG; while [ ! -e $RELEASE ]; do sleep 0.05; done; fi' DEBUG
+set -T
+source $1
+'''
 
 
 class Lab:
@@ -42,6 +48,8 @@ class Lab:
             os.chmod(os.path.join(self.bin, name), 0o755)
         with open(os.path.join(self.root, 'runner.sh'), 'w') as fh:
             fh.write(RUNNER)
+        with open(os.path.join(self.root, 'holder.sh'), 'w') as fh:
+            fh.write(HOLDER)
         self.script = os.path.join(C.REPO, 'bin', 'newpolicy.sh')
         self.tmpl = os.path.join(self.root, 'tmpl')
 
@@ -203,8 +211,71 @@ def concurrent_case(lab, i):
         probs.append('a second newpolicy.sh started while the first one works exits with %s instead of 1' % b.returncode)
     if lab.current(home) != 'p2' or lab.dirs(home) != ['p1', 'p2']:
         probs.append('after two simultaneous invocations: current=%s directories=%s' % (lab.current(home), lab.dirs(home)))
+    probs += safety(lab, home, 'p1', 'after two simultaneous invocations')
     shutil.rmtree(home, ignore_errors=True)
     return dict(K=0, variant='concurrent', events=['two invocations %0.1f s apart' % (0.5 + 0.3 * i)], problems=probs, liveness=[], rc=b.returncode)
+
+
+def snapshot(home):
+    """names below policies/ (two levels) and the target of current"""
+    out = []
+    base = os.path.join(home, 'policies')
+    for d in sorted(os.listdir(base)):
+        p = os.path.join(base, d)
+        if os.path.islink(p):
+            out.append('%s -> %s' % (d, os.readlink(p)))
+        elif os.path.isdir(p):
+            out.append('%s/ %s' % (d, ' '.join(sorted(os.listdir(p)))))
+        else:
+            out.append(d)
+    return out
+
+
+def hold_case(lab, K):
+    """invocation A is parked before its K-th simple command; invocation B runs to its end; A goes on."""
+    home = lab.fresh('hold%d' % K)
+    c1 = lab.commit(home, 'network:n1 = { ip = 10.1.1.0/24; } # C1')
+    cf, flag, rel = (os.path.join(home, x) for x in ('count', 'held', 'release'))
+    open(cf, 'w').close()
+    e = lab.env(home)
+    e.update(HOLDAT=str(K), COUNTFILE=cf, HOLDFLAG=flag, RELEASE=rel)
+    a = subprocess.Popen(['bash', os.path.join(lab.root, 'holder.sh'), lab.script], env=e, stdin=subprocess.DEVNULL,
+                         stdout=subprocess.DEVNULL, stderr=subprocess.DEVNULL)
+    t0 = time.time()
+    while not os.path.exists(flag) and a.poll() is None and time.time() - t0 < 60:
+        time.sleep(0.05)
+    if not os.path.exists(flag):
+        a.wait(timeout=60)
+        shutil.rmtree(home, ignore_errors=True)
+        return None
+    before = snapshot(home)
+    b = subprocess.run(['bash', lab.script], env=lab.env(home), stdin=subprocess.DEVNULL, stdout=subprocess.PIPE, stderr=subprocess.STDOUT, text=True, timeout=120)
+    after = snapshot(home)
+    probs, events = [], ['commit C1', 'invocation A parked before its command %d' % K, 'invocation B runs (rc=%s)' % b.returncode]
+    if b.returncode == 1 and before != after:
+        probs.append('an invocation that found the lock taken (exit 1) changed the policy database: %s -> %s' % (before, after))
+    probs += safety(lab, home, 'p1', 'after invocation B')
+    open(rel, 'w').close()
+    try:
+        a.wait(timeout=120)
+    except subprocess.TimeoutExpired:
+        a.kill()
+        probs.append('invocation A does not end after it was released')
+    events.append('A released (rc=%s)' % a.returncode)
+    probs += safety(lab, home, 'p1', 'after both invocations')
+    rc3, _ = lab.run(home, 0)
+    events.append('undisturbed run (rc=%s)' % rc3)
+    probs += safety(lab, home, 'p1', 'after the undisturbed run')
+    cur = lab.current(home)
+    live = []
+    remote = lab.sh(home, 'git -C $HOME/netspoc.git rev-parse master').stdout.strip()
+    local = lab.sh(home, 'git -C $HOME/policies/%s/src rev-parse HEAD' % cur).stdout.strip() if cur else ''
+    if cur is None or not (local == remote or lab.compiled_from(home, cur) == remote):
+        live.append('after two overlapping invocations and an undisturbed run current (%s) is not the newest compiling revision' % cur)
+    elif not lab.complete(home, cur) or lab.compiled_from(home, cur) not in (c1, remote):
+        probs.append('current -> %s was not compiled from the committed revision' % cur)
+    shutil.rmtree(home, ignore_errors=True)
+    return dict(K=K, variant='overlap', events=events, problems=probs, liveness=live, rc=rc3)
 
 
 def main(ctx):
@@ -229,6 +300,8 @@ def main(ctx):
         with ThreadPoolExecutor(12) as ex:
             res = [r for r in ex.map(lambda j: kill_case(lab, *j), jobs) if r]
         res += [concurrent_case(lab, i) for i in range(2)]
+        with ThreadPoolExecutor(12) as ex:
+            res += [r for r in ex.map(lambda k: hold_case(lab, k), [K for K in range(1, N + 1) if not quick or K % 3 == 1]) if r]
         for r in res:
             rep = dict(property='C19', kill_before_command=r['K'], history=r['events'], variant=r['variant'],
                        how='bin/newpolicy.sh from the current tree, real git with a local bare repository, stub compiler '
@@ -241,6 +314,7 @@ def main(ctx):
         cov = dict(evaluations=len(res), distinct_nontrivial=len(set((r['K'], r['variant']) for r in res)),
                    rule='one run of newpolicy.sh has %d simple commands; kill before each x {no further commit, a further good commit, '
                         'a commit that does not compile (sampled in quick)} followed by an undisturbed run; two simultaneous invocations; '
+                        'a second invocation while the first is parked before command K (sampled in quick), which must not touch the database when it finds the lock taken; '
                         'distinct by (kill position, history)' % N,
                    traces_validated_against_impl=len(res), simple_commands=N,
                    samples=[dict(K=res[0]['K'], variant=res[0]['variant'], events=res[0]['events'])] if res else [])
